@@ -180,6 +180,13 @@ func c15EventStates(tier string) []c15State {
 			out = append(out, c15State{Name: fmt.Sprintf("pods=%v policies=%v", ps, pl), C: mkCluster(ps, pl), Pods: ps})
 		}
 	}
+	// a rule without peers in front of a rule with a selector peer (the rule's index in the policy and the position of what was
+	// compiled for it differ as soon as anything is left out), over every pod set
+	for _, ps := range podSets {
+		for _, pl := range [][]string{{"in-ports-then-podsel"}, {"in-ports-then-podsel", "in-podsel"}} {
+			out = append(out, c15State{Name: fmt.Sprintf("pods=%v policies=%v", ps, pl), C: mkCluster(ps, pl), Pods: ps})
+		}
+	}
 	// two pods of one name in namespaces ns1 and ns12 (what identifies a pod's rules must not be a prefix of another pod's)
 	for _, pl := range [][]string{{}, {"in-ns12"}, {"in-ns12", "in-podsel"}} {
 		ps := []string{"web", "db", "web12"}
